@@ -269,6 +269,7 @@ theorem C10_kl_formula (ε : ℝ) (n : ℕ) (d : Char → M2 ℝ) (psi : (Fin n 
       = .ok ⟨.pyfloat, (items.map (fun it =>
           klDiv (2 ^ n) (tBornPure n d it) (fun k => pureBorn n d it.1 (vecOf n psi) k / Z))).sum / items.length⟩ := by
   unfold klPure
+  simp only [effDict_some]
   simp only [hres, bind, Except.bind]
   rw [C10_kl_mean _ _ hne]
   have hm : items.map (fun it => singleBasisKL ε (2 ^ n) (targetProbsPure n d it.1 it.2) (nnProbsPure n d psi Z it.1))
@@ -429,6 +430,7 @@ theorem C10_kl_self_zero (ε : ℝ) (n : ℕ) (d : Char → M2 ℝ) (psi : (Fin 
     (hown : ∀ it ∈ items, OwnPure n d psi Z it) :
     klPure ε n (some d) psi prob Z target bases = .ok ⟨.pyfloat, 0⟩ := by
   unfold klPure
+  simp only [effDict_some]
   simp only [hres, bind, Except.bind]
   rw [C10_kl_mean _ _ hne]
   have hz : ∀ it ∈ items, singleBasisKL ε (2 ^ n) (targetProbsPure n d it.1 it.2) (nnProbsPure n d psi Z it.1) = 0 := by
@@ -577,6 +579,7 @@ theorem C10_nll_formula (ε : ℝ) (n : ℕ) (d : Char → M2 ℝ) (psi : (Fin n
   have hzl : (bs.zip samples).length = samples.length := by simp [hlen]
   simp only [h1, Bool.false_eq_true, if_false]
   rw [C10_nll_grouped ε _ _ hz, hzl]
+  rfl
 
 /-- **C10.3a (density matrix)** -/
 theorem C10_nll_formula_mixed (ε : ℝ) (n : ℕ) (d : Char → M2 ℝ) (rho : (Fin n → Bool) → (Fin n → Bool) → C ℝ)
@@ -677,10 +680,7 @@ theorem C10_kind (ε : α) (n N : ℕ) (dp : Option (Char → M2 α)) (d : Char 
       simp only [bind, Except.bind]
       cases plan with
       | noBases t => exact C10_kind_klNone _ _ _ _
-      | list items =>
-        cases dp with
-        | some d' => exact C10_kind_klMean _ _
-        | none => intro x hx; simp only at hx; split_ifs at hx
+      | list items => exact C10_kind_klMean _ _
   · intro target bases
     unfold klMixed
     cases hres : resolve target bases with
@@ -695,15 +695,10 @@ theorem C10_kind (ε : α) (n N : ℕ) (dp : Option (Char → M2 α)) (d : Char 
     cases sb with
     | none => exact C10_kind_nllNone _ _ _
     | some bs =>
-      cases dp with
-      | some d' =>
-        simp only
-        split_ifs
-        · intro x hx; cases hx
-        · exact C10_kind_nllBases _ _ _
-      | none =>
-        simp only
-        split_ifs <;> first | exact C10_kind_nllBases _ _ _ | (intro x hx; cases hx)
+      simp only
+      split_ifs
+      · intro x hx; cases hx
+      · exact C10_kind_nllBases _ _ _
   · intro samples sb
     unfold nllMixed
     cases sb with
@@ -716,20 +711,18 @@ theorem C10_kind (ε : α) (n N : ℕ) (dp : Option (Char → M2 α)) (d : Char 
 
 end kinds
 
-/-- **Known finding F10, exhibited in the model.** A state without a `unitary_dict` attribute (`dict = none`:
-`PositiveWaveFunction`) makes `KL` over ANY non-empty list of bases and `NLL` with ANY rotated sample row fail with
-`AttributeError` instead of returning a number — so for that state type the property's "every code path returns a plain
-real number" holds only on the `bases=None` / all-`Z` paths (`C10_kl_formula_none`, `C10_kl_self_zero_none_rbm_pos`,
-`C10_nll_formula_none`). The check replays this witness on the implementation on every run. -/
-theorem C10_known_F10_witness (ε : ℝ) (n : ℕ) (psi : (Fin n → Bool) → C ℝ) (prob : (Fin n → Bool) → ℝ) (Z : ℝ) :
-    (∀ (t : ℕ → C ℝ) (b : Basis n) (bs : List (Basis n)),
-      klPure ε n none psi prob Z (.once t) (some (b :: bs)) = .error .AttributeError) ∧
-    (∀ (samples : List (Fin n → Bool)) (bs : List (Basis n)), bs.length = samples.length → bs.any anyRot = true →
-      nllPure ε n none psi prob Z samples (some bs) = .error .AttributeError) := by
-  refine ⟨fun t b bs => rfl, fun samples bs hlen hrot => ?_⟩
-  unfold nllPure
-  have h1 : (bs.length != samples.length) = false := by simp [hlen]
-  simp [h1, hrot]
+/-- **F10 (fixed by 4aa6393), in the model.** A state without a `unitary_dict` attribute (`dict = none`:
+`PositiveWaveFunction`) evaluates `KL` over a list of bases and `NLL` with per-sample bases exactly as a state carrying
+the default dictionary `create_dict()` would — so every theorem of this file stated for `some d` (formula, non-negativity,
+self-zero, permutation invariance, result kind) applies to positive wavefunctions with `d = defaultDict`. Before the fix
+these paths raised `AttributeError` (the former known finding F10); the check replays the old witness on the
+implementation on every run and now expects numbers. -/
+theorem C10_pos_default_dict (ε : ℝ) (n : ℕ) (psi : (Fin n → Bool) → C ℝ) (prob : (Fin n → Bool) → ℝ) (Z : ℝ) :
+    (∀ (target : Target (ℕ → C ℝ) n) (bases : Option (List (Basis n))),
+      klPure ε n none psi prob Z target bases = klPure ε n (some defaultDict) psi prob Z target bases) ∧
+    (∀ (samples : List (Fin n → Bool)) (sb : Option (List (Basis n))),
+      nllPure ε n none psi prob Z samples sb = nllPure ε n (some defaultDict) psi prob Z samples sb) :=
+  ⟨fun _ _ => rfl, fun _ _ => rfl⟩
 
 /-! ## 5. Mixed fidelity -/
 
